@@ -35,15 +35,16 @@ var properties = map[string]*Property{
 	"C05": {
 		ID: "C05",
 		Runs: []Run{
-			{Dir: "c05", Pkg: "internal/execute/sm/actions", Fn: "VerifC05Count", Needs: []string{"overrun explored", "wrong type explored", "retry explored", "retry budget exhausted", "timeout message recorded"}},
-			{Dir: "c05", Pkg: "internal/execute/sm/actions", Fn: "VerifC05Check", Needs: []string{"overrun explored", "wrong type explored", "retry budget exhausted"}},
-			{Dir: "c05", Pkg: "internal/execute/sm/actions", Fn: "VerifC05AnyRetries", Needs: []string{"overrun explored", "wrong type explored", "retry explored"}},
+			{Dir: "c05", Pkg: "internal/execute/sm/actions", Fn: "VerifC05Count", P: [2]int{2, 3}, SwitchOn: []string{"yield:enter", "yield:exit"}, Needs: []string{"overrun explored", "wrong type explored", "retry explored", "retry budget exhausted", "timeout message recorded"}},
+			{Dir: "c05", Pkg: "internal/execute/sm/actions", Fn: "VerifC05Check", P: [2]int{2, 2}, SwitchOn: []string{"yield:enter", "yield:exit"}, Needs: []string{"overrun explored", "wrong type explored", "retry budget exhausted"}},
+			{Dir: "c05", Pkg: "internal/execute/sm/actions", Fn: "VerifC05AnyRetries", P: [2]int{1, 2}, SwitchOn: []string{"yield:enter", "yield:exit"}, Needs: []string{"overrun explored", "wrong type explored", "retry explored"}},
 		},
 		Assumptions: append([]string{
 			"model plugin: the verdict of every invocation (ok, permanent, transient, wrong response type, overrun) is a solver variable; an overrunning plugin returns a retryable error only after its context is done",
 			"Timeout >= 5s (what Submit enforces, C16); an attempt's deadline passes only when the plugin's verdict is overrun (latency is the plugin's choice)",
 			"retry library (Azure/retry exponential.Backoff.Retry) replaced by its control-flow model: retry until success, errors.Is(err, ErrPermanent), or a done context; policy has no MaxAttempts and no transformers; interval arithmetic dropped",
-			"worker.Pool.Submit modelled as goroutine spawn; statemachine.Run is the real code with OTEL spans stubbed",
+			"worker.Pool.Submit modelled as goroutine spawn; statemachine.Run is the real code with OTEL spans stubbed; sync.Pool is a LIFO free list (Get returns the most recent Put, else New())",
+			"schedules: the plugin goroutine of an overrun attempt may be delayed past the start of later attempts (delay bound P at plugin entry/exit: 2 quick)",
 			"a failed vault write is log.Fatalf (process exit) and therefore outside the property; the model vault never fails",
 		}, commonAssumptions...),
 		OutsideClaim: []string{"count clause for Retries > R (R=2 quick, 3 thorough): VerifC05AnyRetries covers every Retries value for the other clauses but cuts the all-transient script after 4 (5) attempts",
@@ -73,8 +74,8 @@ var properties = map[string]*Property{
 		{"VerifC07PlanGroups@slow:t", 1, 1, nil}, {"VerifC07BlockGroups@slow:t", 1, 1, nil}},
 		[]string{"continuous-check runs beyond the K-th tick of each ticker (K=2)"}),
 	"C08": eProp("C08", []eRun{{"VerifC08Seq@full:t", 0, 0, nil}, {"VerifC08PlanGroups@full:t", 0, 0, nil}, {"VerifC08BlockGroups@full:t", 0, 0, nil}, {"VerifC08Seq", 0, 1, nil}, {"VerifC08PlanGroups", 1, 1, nil}, {"VerifC08BlockGroups", 1, 1, nil}, {"VerifC08Conc", 1, 2, nil}, {"VerifC08Conc@slow", 1, 2, nil}},
-		[]string{"polling histories are covered through the write log: every write to a block, sequence or sequence action that was durably Completed/Failed keeps that status (given atomic writes); waiter release itself is C12's harness"}),
-	"C09": eProp("C09", []eRun{{"VerifC09SeqSmall", 0, 0, []string{"crash while the plan is durably Running", "action invoked during recovery", "action not invoked during recovery"}},
+		[]string{"polling histories are covered through the write log: every write to a block, sequence or sequence action that was durably Completed/Failed keeps that status (given atomic writes)", "waiter release: two concurrent waiters and one late waiter on one plan (VerifC08Wait)"}),
+	"C09": eProp("C09", []eRun{{"VerifC09SeqSmall", 0, 0, []string{"crash while the plan is durably Running", "action invoked during recovery", "action not invoked during recovery", "crash under a coarse clock"}},
 		{"VerifC09PlanGroups", 0, 0, []string{"crash while the plan is durably Running"}}, {"VerifC09BlockGroups", 0, 0, []string{"crash while the plan is durably Running"}},
 		{"VerifC09Conc", 0, 1, []string{"crash while the plan is durably Running", "action invoked during recovery"}},
 		{"VerifC09Conc@slow:t", 0, 0, []string{"crash while the plan is durably Running", "action invoked during recovery"}},
@@ -82,7 +83,7 @@ var properties = map[string]*Property{
 		[]string{"crash points are the prefixes of the durable write log of a forward run (the crash index is a solver variable; the durable image is ite-encoded); in-memory state is lost, each write is atomic",
 			"shapes: one block with <=2 sequences x <=2 actions; 1x1x1 with the 7-subset family of plan-level resp. block-level groups; two parallel sequences (thorough: one scheduling deviation, and the slow-plugin scheduler)",
 			"a second crash during recovery with a third engine instance: thorough tier only, on one block x one sequence x two actions (VerifC09Double, VerifC10Double); the quick tier covers the second crash through C10's resumability clause", "real process kill on a file-backed store is outside this technique"}),
-	"C10": eProp("C10", []eRun{{"VerifC10SeqSmall", 0, 0, []string{"crash while the plan is durably Running", "uninterrupted outcome Failed", "uninterrupted outcome Completed"}},
+	"C10": eProp("C10", []eRun{{"VerifC10SeqSmall", 0, 0, []string{"crash while the plan is durably Running", "uninterrupted outcome Failed", "uninterrupted outcome Completed", "crash under a coarse clock"}},
 		{"VerifC10PlanGroups", 0, 0, []string{"crash while the plan is durably Running"}}, {"VerifC10BlockGroups", 0, 0, []string{"crash while the plan is durably Running"}},
 		{"VerifC10Conc", 0, 1, []string{"crash while the plan is durably Running", "uninterrupted outcome Failed"}},
 		{"VerifC10Conc@slow:t", 0, 0, []string{"crash while the plan is durably Running", "uninterrupted outcome Failed"}},
@@ -153,7 +154,7 @@ var properties = map[string]*Property{
 		ID: "C13",
 		Runs: []Run{
 			{Dir: "c13", Pkg: "workflow/storage/sqlite", Fn: "VerifC13Create", Needs: []string{"plan compared after Create", "two blocks compared", "attempts compared"}},
-			{Dir: "c13", Pkg: "workflow/storage/sqlite", Fn: "VerifC13Update", Needs: []string{"plan updated", "checks updated", "block updated", "sequence updated", "action updated", "plan compared after updates"}},
+			{Dir: "c13", Pkg: "workflow/storage/sqlite", Fn: "VerifC13Update", Needs: []string{"plan updated", "checks updated", "block updated", "sequence updated", "action updated", "plan compared after updates", "action reset after an attempt was stored"}},
 			{Dir: "c13", Pkg: "workflow/storage/sqlite", Fn: "VerifC13Unknown", Needs: []string{"read after delete", "read of a never created id"}},
 		},
 		Assumptions: append([]string{
@@ -173,6 +174,7 @@ var properties = map[string]*Property{
 			{Dir: "c13,c14", Pkg: "workflow/storage/sqlite", Fn: "VerifC14Atomic", Needs: []string{"failure injected", "create failed", "create succeeded"}},
 			{Dir: "c13,c14", Pkg: "workflow/storage/sqlite", Fn: "VerifC14Twice", Needs: []string{"first plan intact after duplicate create"}},
 			{Dir: "c13,c14", Pkg: "workflow/storage/sqlite", Fn: "VerifC14Delete", Needs: []string{"other plan intact after delete"}},
+			{Dir: "c13,c14", Pkg: "workflow/storage/sqlite", Fn: "VerifC14Interleave", Needs: []string{"plan re-created after delete", "one plan stored, the other deleted"}},
 		},
 		Assumptions: append([]string{"fault model: at most one failure per Create, injected at any Prepare, Step or json.Marshal call-site instance (a solver boolean per instance), or a request holding a channel at any action position",
 			"crash-mid-Submit clause: every statement of commitPlan/deletePlan runs inside the open transaction (asserted); SQLite's atomic commit is assumed, a process kill itself is not simulated"}, append([]string{
@@ -182,7 +184,7 @@ var properties = map[string]*Property{
 			"clock range: stored instants are the zero time or lie in [1ns, 2^62 ns) after the epoch",
 			"sampled symbolic paths are re-run natively against the real in-memory SQLite (native differential in this evidence file); every counterexample is replayed there too",
 		}, commonAssumptions...)...),
-		OutsideClaim: []string{"CosmosDB (see C13)", "real process kill on a file-backed store", "two or more simultaneous failures"},
+		OutsideClaim: []string{"CosmosDB (see C13)", "real process kill on a file-backed store", "two or more simultaneous failures", "Create/Delete histories longer than 4 (quick) / 5 (thorough) operations or over more than two plans"},
 	},
 	"C15": {
 		ID: "C15",
@@ -191,6 +193,7 @@ var properties = map[string]*Property{
 			{Dir: "c13,c15", Pkg: "workflow/storage/sqlite", Fn: "VerifC15Search", Needs: []string{"search returned several plans", "two statuses searched", "searched by ids or groups"}},
 			{Dir: "c13,c15", Pkg: "workflow/storage/sqlite", Fn: "VerifC15Running", Needs: []string{"running search explored"}},
 			{Dir: "c13,c15", Pkg: "workflow/storage/sqlite", Fn: "VerifC15List", Needs: []string{"limit cut the result", "several plans listed"}},
+			{Dir: "c13,c15", Pkg: "workflow/storage/sqlite", Fn: "VerifC15Cancel", P: [2]int{1, 2}, SwitchOn: []string{"yield:cancel", "chan"}, Needs: []string{"stream ended by cancellation and was closed"}},
 		},
 		Assumptions: append([]string{"store content: 1..2 (3) plans with any 64-bit status, symbolic submit time and a group from a pool of two; filters: ByIDs, ByGroupIDs, ByStatus of length 0..2 in every combination with symbolic status values; limit any 64-bit value",
 			"a result stream that is never closed shows as a deadlock of the consuming range loop"}, append([]string{
@@ -253,6 +256,10 @@ func init() {
 	properties["C08"].Runs = append(properties["C08"].Runs,
 		Run{Dir: "c05", Pkg: "internal/execute/sm/actions", Fn: "VerifC05Count", Needs: []string{"retry explored"}})
 	properties["C08"].OutsideClaim = append(properties["C08"].OutsideClaim, "attempt-level durability is checked on a single action with Retries <= R (R=2 quick, 3 thorough)")
+	// C08: "the terminal state of the whole plan is durable before any waiter is released": real Plans.Start/runPlan/Wait, three waiters.
+	properties["C08"].Runs = append(properties["C08"].Runs,
+		Run{Dir: "c12", Pkg: "internal/execute", Fn: "VerifC08Wait", P: [2]int{1, 2}, Ticks: [2]int{1, 1}, SwitchOn: []string{"yield:enter", "yield:exit", "yield:w"},
+			Needs: []string{"plan completed", "plan failed", "late waiter released"}})
 	// C02/C04: "including when several plans run on one Workstream": two plans through execute.Plans.Start/Wait.
 	multi := Run{Dir: "c12", Pkg: "internal/execute", Fn: "VerifMulti", P: [2]int{1, 2}, Ticks: [2]int{1, 1}, SwitchOn: []string{"yield:enter", "yield:exit"},
 		Needs: []string{"Wait returned while the other plan was still Running", "actions of both plans in flight together", "one plan failed, the other completed", "two sequences of one block in flight"}}
